@@ -228,6 +228,61 @@ def run(repo: Repo, rep: Report) -> None:
             if isinstance(n, ast.Assign) and any(isinstance(t, ast.Subscript) and roles.self_attr(t.value) == dflt for t in n.targets):
                 rep.ob("C01.e-default-contexts-copy-on-write", mem, "Memory." + m, n, False, "writes into the shared default-context dict", node=n)
 
+    # ------------------------------------------------------------------ (h)
+    rep.rule("C01.h-context-maps-updated-together",
+             "the per-triple context map (read by the seven bound shapes through the context filter) and the per-context triple set (read by "
+             "the all-unbound shape and len()) are updated together: every normal path of __add_triple_context records the context in the "
+             "triple's map and adds the triple to that context's set; every normal path of __remove_triple_context removes both", floor=4)
+    from vlib.cfg import CFG as _CFG
+
+    ct = None
+    for n in own_nodes(init):
+        if isinstance(n, (ast.AnnAssign, ast.Assign)):
+            t = n.target if isinstance(n, ast.AnnAssign) else n.targets[0]
+            a = roles.self_attr(t)
+            if a and "contexttriples" in a.lower():
+                ct = a
+    if ct is None:
+        raise AnalysisError("Memory.__init__: per-context triple set attribute not found")
+    addf = mem.func("Memory.__add_triple_context")
+    g = _CFG(addf)
+    params = [a.arg for a in addf.args.args]
+    ctxvar = None
+    for n in own_nodes(addf):
+        if isinstance(n, ast.Assign) and isinstance(n.value, ast.Call) and "ctx_to_str" in norm(n.value.func):
+            ctxvar = norm(n.targets[0])
+    if ctxvar is None:
+        raise AnalysisError("Memory.__add_triple_context: context key variable not found")
+    set_adds = {g.node_of(c, mem) for c in own_nodes(addf) if isinstance(c, ast.Call) and isinstance(c.func, ast.Attribute) and c.func.attr == "add"
+                and isinstance(c.func.value, ast.Subscript) and roles.self_attr(c.func.value.value) == ct and norm(c.func.value.slice) == ctxvar}
+    ok = bool(set_adds) and g.exit not in g.reach(g.entry, avoid=set_adds)
+    rep.ob("C01.h-context-maps-updated-together", mem, "Memory.__add_triple_context", "self.%s[%s].add(triple) on every path" % (ct, ctxvar), ok,
+           "" if ok else "a path returns without adding the triple to the requested context's triple set: len() and the all-unbound pattern miss it", node=addf)
+    map_writes = set()
+    for n in own_nodes(addf):
+        if isinstance(n, ast.Assign):
+            for t in n.targets:
+                if isinstance(t, ast.Subscript) and norm(t.slice) == ctxvar and not roles.self_attr(t.value):
+                    map_writes.add(g.node_of(n, mem))
+            if isinstance(n.value, ast.Dict) and any(norm(k) == ctxvar for k in n.value.keys if k is not None):
+                map_writes.add(g.node_of(n, mem))
+    ok = bool(map_writes) and g.exit not in g.reach(g.entry, avoid=map_writes)
+    rep.ob("C01.h-context-maps-updated-together", mem, "Memory.__add_triple_context", "triple's context map gets %s on every path" % ctxvar, ok,
+           "" if ok else "a path returns without recording the context in the triple's context map: the bound pattern shapes filter the triple out of that graph", node=addf)
+    rmf2 = mem.func("Memory.__remove_triple_context")
+    g = _CFG(rmf2)
+    cparam = rmf2.args.args[2].arg
+    dels = {g.node_of(n, mem) for n in own_nodes(rmf2) if isinstance(n, ast.Delete) and any(isinstance(t, ast.Subscript) and norm(t.slice) == cparam for t in n.targets)}
+    srem = {g.node_of(c, mem) for c in own_nodes(rmf2) if isinstance(c, ast.Call) and isinstance(c.func, ast.Attribute) and c.func.attr in ("remove", "discard")
+            and isinstance(c.func.value, ast.Subscript) and roles.self_attr(c.func.value.value) == ct and norm(c.func.value.slice) == cparam}
+    for what, nodes, msg in (("del ctxs[%s]" % cparam, dels, "the context stays in the triple's map"), ("self.%s[%s].remove(triple)" % (ct, cparam), srem, "the triple stays in the context's triple set (len() and full iteration still report it)")):
+        ok = bool(nodes) and g.exit not in g.reach(g.entry, avoid=nodes)
+        rep.ob("C01.h-context-maps-updated-together", mem, "Memory.__remove_triple_context", what + " on every path", ok, "" if ok else "a path returns although " + msg, node=rmf2)
+    # len() and the all-unbound shape read the same per-context set
+    lf = mem.func("Memory.__len__")
+    ok = any(isinstance(n, ast.Subscript) and roles.self_attr(n.value) == ct for n in ast.walk(lf))
+    rep.ob("C01.h-context-maps-updated-together", mem, "Memory.__len__", "len() counts self.%s[ctx]" % ct, ok, "" if ok else "__len__ no longer counts the per-context triple set", node=lf)
+
     # ------------------------------------------------------------------ (f)
     rep.rule("C01.f-set-operators",
              "Graph.__add__/__mul__/__sub__/__xor__ build exactly union / intersection / difference / symmetric difference "
